@@ -216,6 +216,19 @@ fn cmd_gen_front(args: &[String]) {
                 })
                 .collect();
         }
+        "escsweep" => {
+            let block = 2048;
+            let nblocks = (gen::N_SCALARS + block - 1) / block;
+            evs = (0..2 * nblocks)
+                .into_par_iter()
+                .map(|k| {
+                    let b = k / 2;
+                    let (first, last) = (b * block, ((b + 1) * block).min(gen::N_SCALARS));
+                    builds.fetch_add((last - first) as u64, std::sync::atomic::Ordering::Relaxed);
+                    front::esc_sweep_block(k + 1, first, last, k % 2 == 1)
+                })
+                .collect();
+        }
         "py-plan" => {
             let n = if thorough { 30000 } else { 3000 };
             let plans: Vec<Value> = (0..n).map(|i| front::py_plan(&mut rng_for(i), i + 1)).collect();
@@ -264,6 +277,8 @@ fn cmd_gen_front(args: &[String]) {
                         }
                         evs.push(front::run_rust_history(h, &sets, &ops));
                     }
+                    "escsweep" => evs.push(front::esc_sweep_block(h, v["first"].as_u64().unwrap() as usize,
+                                                                  v["last"].as_u64().unwrap() as usize, v["surr"].as_bool().unwrap_or(false))),
                     "hist-wasm" => evs.push(front_wasm::run_wasm_history(&v["plan"])),
                     "hist-py" => {
                         // executed by CPython beforehand (lib/vlib.py): the results travel with the plan
